@@ -46,7 +46,7 @@ func (vc *VC) frameObligations(Rexit string, final *Mem, entry *Env) {
 			continue
 		}
 		vc.memGet(vc.mem0, k, leaf) // make sure $M0 is declared
-		conds := []string{"(<= 0 o)", "(< o $A0)"}
+		conds := []string{"(< 0 o)", "(< o $A0)"}
 		for _, x := range objs {
 			conds = append(conds, fmt.Sprintf("(not (= o %s))", x))
 		}
